@@ -247,19 +247,98 @@ Definition log_select (q : strsel) (c : pctx) : option select :=
   | None => None
   end.
 
+(* ================= the whole SQL-planned pipeline: json parameters, drop, filters in any order =================
+   A line travels through the stages with a state: its current label map and its current stream
+   fingerprint. `| json l="path", ...` writes the extracted values over the label map (an extraction that
+   finds nothing writes "", as mapUpdate does) and re-fingerprints the line with the hash of the new map;
+   `| drop` removes labels (the fingerprint stays); filters read the CURRENT map / the line text. *)
+Definition drop_spec (p : string * option string) : string * option string :=
+  (fst p, match snd p with Some v => if String.eqb v "" then None else Some v | None => None end).
+
+Section SEM2.
+  Variable re_match : string -> string -> bool.
+  Variable parse_float : string -> option Q.
+  Variable json_get : string -> list string -> string.      (* the value a json parameter extracts from a line *)
+  Variable hash_labels : labels -> Z.                       (* the fingerprint of a re-labelled line *)
+
+  Record pstate := { p_labels : labels; p_fp : Z }.
+  Definition json_stage (params : list parser_param) (line : string) (st : pstate) : option pstate :=
+    match all_paths params with
+    | Some paths =>
+      let ls := map_update (p_labels st) (combine (map pp_label params) (map (json_get line) paths)) in
+      Some {| p_labels := ls; p_fp := hash_labels ls |}
+    | None => None
+    end.
+  Definition drop_stage (ps : list (string * option string)) (st : pstate) : pstate :=
+    {| p_labels := filter (drop_keeps (map drop_spec ps)) (p_labels st); p_fp := p_fp st |}.
+  (* None = the line is filtered out (or the stage is outside the modelled pipeline) *)
+  Fixpoint run_stages (ppl : list stage) (line : string) (st : pstate) : option pstate :=
+    match ppl with
+    | [] => Some st
+    | PLineFilter op v _ :: r => if line_ok re_match line op v then run_stages r line st else None
+    | PLabelFilter f :: r => if lf_ok re_match parse_float (p_labels st) f then run_stages r line st else None
+    | PParser PJson ps :: r => match json_stage ps line st with Some st' => run_stages r line st' | None => None end
+    | PDrop ps :: r => run_stages r line (drop_stage ps st)
+    | _ :: _ => None
+    end.
+  Definition sample_out (q : strsel) (c : pctx) (d : database) (x : sample) : option outrow :=
+    let ls := series_labels d (x_fp x) in
+    if in_window c x && type_in c (x_type x) && forallb (matcher_ok re_match ls) (sel_matchers q) then
+      match run_stages (sel_pipeline q) (x_line x) {| p_labels := ls; p_fp := x_fp x |} with
+      | Some st => Some {| o_fp := p_fp st; o_labels := p_labels st; o_line := x_line x; o_ts := x_ts x |}
+      | None => None
+      end
+    else None.
+  Definition log_rows2 (q : strsel) (c : pctx) (d : database) : list outrow :=
+    flat_map (fun x => match sample_out q c d x with Some o => [o] | None => [] end) (d_samples d).
+  Definition logql_sem2 (q : strsel) (c : pctx) (d : database) (res : list outrow) : Prop :=
+    if Z.eqb (c_limit c) 0 then Permutation res (log_rows2 q c d)
+    else topk (c_asc c) (c_limit c) (log_rows2 q c d) res.
+
+  (* the fragment with relabelling stages: line filters, label filters, json stages with parameters (every path splits,
+     labels of one stage distinct) and drops IN ANY ORDER (since fix 1c90aa9 a filter shares a select only with
+     relabelling stages written before it), at least one json or drop. *)
+  Definition json_ok (ps : list parser_param) : bool :=
+    match all_paths ps with Some _ => true | None => false end
+    && negb (Nat.eqb (List.length ps) 0)
+    && (fix nodup (l : list string) : bool :=
+          match l with [] => true | x :: r => negb (existsb (String.eqb x) r) && nodup r end) (map pp_label ps).
+  Definition is_filter (s : stage) : bool :=
+    match s with PLineFilter _ _ _ => true | PLabelFilter f => lf_supported f | _ => false end.
+  Definition is_json (s : stage) : bool := match s with PParser PJson ps => json_ok ps | _ => false end.
+  Definition is_drop (s : stage) : bool := match s with PDrop _ => true | _ => false end.
+  Fixpoint take_while {A} (p : A -> bool) (l : list A) : list A :=
+    match l with x :: r => if p x then x :: take_while p r else [] | [] => [] end.
+  Fixpoint drop_while {A} (p : A -> bool) (l : list A) : list A :=
+    match l with x :: r => if p x then drop_while p r else l | [] => [] end.
+  Definition in_fragment2 (q : strsel) : bool :=
+    negb (Nat.eqb (List.length (sel_matchers q)) 0)
+    && forallb (fun s => is_filter s || is_json s || is_drop s) (sel_pipeline q)
+    && existsb (fun s => is_json s || is_drop s) (sel_pipeline q).
+End SEM2.
+
 (* "the SQL of q, executed over d, is the reference answer": the planners produce a SELECT, it evaluates
    (inside the modelled ClickHouse subset) to rows that read back as the lines logql_sem defines *)
 Definition log_correct (re_match : string -> string -> bool) (parse_float : string -> option Q)
+    (json_get : string -> list string -> string) (hash_labels : labels -> Z)
     (tie : forall A : Type, list A -> list A) (q : strsel) (c : pctx) (d : database) : Prop :=
   exists sel rows outs,
     log_select q c = Some sel
-    /\ eval re_match parse_float tie (to_sqldb c d) sel = Some rows
+    /\ eval re_match parse_float json_get hash_labels tie (to_sqldb c d) sel = Some rows
     /\ map row_out rows = map Some outs
     /\ logql_sem re_match parse_float q c d outs.
+Definition log_correct2 (re_match : string -> string -> bool) (parse_float : string -> option Q)
+    (json_get : string -> list string -> string) (hash_labels : labels -> Z)
+    (tie : forall A : Type, list A -> list A) (q : strsel) (c : pctx) (d : database) : Prop :=
+  exists sel rows outs,
+    log_select q c = Some sel
+    /\ eval re_match parse_float json_get hash_labels tie (to_sqldb c d) sel = Some rows
+    /\ map row_out rows = map Some outs
+    /\ logql_sem2 re_match parse_float json_get hash_labels q c d outs.
 
 (* C07 at full strength over the modelled fragment (false: see absent_guard) *)
 Definition log_sound_complete_stmt : Prop :=
-  forall re_match parse_float (tie : forall A : Type, list A -> list A),
+  forall re_match parse_float json_get hash_labels (tie : forall A : Type, list A -> list A),
     (forall A (l : list A), Permutation (tie A l) l) ->
     forall q c d, in_fragment q = true -> oracle_ok re_match parse_float q -> ctx_ok c = true -> db_ok c d ->
-    log_correct re_match parse_float tie q c d.
+    log_correct re_match parse_float json_get hash_labels tie q c d.
